@@ -2,7 +2,7 @@
    Proofs/ScanGo.v.  Model: Model/Scan.v, dialects XGo and Go (the installed go/scanner). *)
 From Coq Require Import List NArith ZArith Bool.
 Import ListNotations.
-From V Require Import Base.Prelude Gen.ScanTok Model.Scan Model.ScanRel Proofs.ScanGo Proofs.ScanGoEq.
+From V Require Import Base.Prelude Gen.ScanTok Model.Scan Model.ScanRel Proofs.ScanGo Proofs.ScanGoEq Gen.ScanConst Proofs.ScanConst.
 Open Scope Z_scope.
 
 (* every token of go/token carries the same number in token/token.go, and token.Lookup agrees *)
@@ -74,6 +74,34 @@ Example C16_not_go_like_examples : forall ul ud,
   /\ go_like ul ud true w_line_big = false.
 Proof. intros ul ud. repeat split; vm_compute; reflexivity. Qed.
 
+(* K-gen: the numeric comparisons of the installed go/scanner, translated from the source on every run
+   (Gen/ScanConst.v), are those of the model - for all values; a changed bound or operator in lower /
+   isDecimal / isHex / digitVal / isLetter / isDigit / skipWhitespace / scanEscape breaks this theorem *)
+Theorem C16_source_constants : forall ul ud,
+  (forall c, go_sc_lower c = lower c) /\ (forall c, go_sc_isDecimal c = is_decimal c)
+  /\ (forall c, go_sc_isHex c = is_hex c) /\ (forall c, go_sc_digitVal c = digit_val c)
+  /\ (forall c, go_sc_isLetter ul ud c = is_letter ul c) /\ (forall c, go_sc_isDigit ul ud c = is_digit ud c)
+  /\ (forall semi c, go_sc_skipCond semi c = is_blank_rune semi c)
+  /\ (forall mx x, go_sc_escInvalid mx x = esc_invalid mx x)
+  /\ (forall q c, existsb (Z.eqb c) go_sc_escSimple || (c =? q) = esc_simple q c)
+  /\ (forall c, zassoc c go_sc_escNumeric = esc_numeric c)
+  /\ go_sc_bom = bom /\ go_sc_maxLineCol = max_line_col.
+Proof.
+  intros ul ud.
+  split; [intros; apply go_lower|].
+  split; [intros; apply go_isDecimal|].
+  split; [intros; apply go_isHex|].
+  split; [intros; apply go_digitVal|].
+  split; [intros; apply go_isLetter|].
+  split; [intros; apply go_isDigit|].
+  split; [intros; apply go_skipCond|].
+  split; [intros; apply go_escInvalid|].
+  split; [intros; apply go_escSimple|].
+  split; [intros; apply go_escNumeric|].
+  split; [apply go_bom|apply go_maxLineCol].
+Qed.
+
+Print Assumptions C16_source_constants.
 Print Assumptions C16_xgo_eq_go_on_go_lexemes.
 Print Assumptions C16_step_xgo_eq_go.
 Print Assumptions C16_codes_agree.
